@@ -688,6 +688,9 @@ def parseItem (id prev : Nat) (t : String) : Option Item :=
   if t == "z" then some (.send #[])
   else if t == "c" then some .close
   else if t == "h" then some .hold
+  -- `b`: the server host drops the SYNs (full accept queue). To the client this is a connection that
+  -- never makes progress — the model's `hold` —; what the SERVER sees differs (nothing), see `fmtSeen`.
+  else if t == "b" then some .hold
   else if t.startsWith "p" then (t.drop 1).toString.toNat?.map .pause
   else (parseTemplate id prev t).map .send
 
@@ -729,6 +732,8 @@ structure QSpec where
   dropAt : Option Nat
   udp : List (List Item)
   tcp : List (List Item)
+  /-- the TCP script is `b`: connection attempts are black-holed, the server sees none of them -/
+  blackhole : Bool := false
 
 def parseQ (cfg : Cfg) (id prev : Nat) (q : List String) : Option QSpec := do
   let api ← kv q "api"
@@ -739,31 +744,33 @@ def parseQ (cfg : Cfg) (id prev : Nat) (q : List String) : Option QSpec := do
   let drop ← kv q "drop"
   let dropAt : Option Nat ← if drop == "none" || !cfg.async then some none else drop.toNat?.map some
   let udp ← parseScript id prev (← kv q "udp")
-  let tcp ← parseScript id prev (← kv q "tcp")
-  some { api, qname, qtype, qclass, buf, dropAt, udp, tcp }
+  let tcpText ← kv q "tcp"
+  let tcp ← parseScript id prev tcpText
+  some { api, qname, qtype, qclass, buf, dropAt, udp, tcp, blackhole := tcpText.startsWith "b" }
 
 def zeroId (b : Bytes) (off : Nat) : Bytes :=
   if b.size ≥ off + 2 then (b.set! off 0).set! (off + 1) 0 else b
 
-def fmtSeen (run : RawRun) : String :=
+def fmtSeen (run : RawRun) (blackhole : Bool := false) : String :=
   let udp0 := match run.msg, run.seen.udp with
     | some m, _ :: _ => toHex (zeroId (m.extract 2 m.size) 0)
     | _, _ => "-"
-  let tcp0 := match run.msg, run.seen.tcp with
+  let ntcp := if blackhole then 0 else run.seen.tcp
+  let tcp0 := match run.msg, ntcp with
     | some m, _ + 1 => toHex (zeroId m 2)
     | _, _ => "-"
-  s!"nudp={run.seen.udp.length} udp0={udp0} udpsame=1 ntcp={run.seen.tcp} tcp0={tcp0} tail=1"
+  s!"nudp={run.seen.udp.length} udp0={udp0} udpsame=1 ntcp={ntcp} tcp0={tcp0} tail=1"
 
 /-- run one query of a history: answer group, socket queue afterwards, id seen by the server (0 if none) -/
 def runQ (cfg : Cfg) (id : Nat) (queue : List Dgram) (q : QSpec) : String × List Dgram × Nat :=
-  let sent (run : RawRun) : Bool := !run.seen.udp.isEmpty || run.seen.tcp > 0
+  let sent (run : RawRun) : Bool := !run.seen.udp.isEmpty || (run.seen.tcp > 0 && !q.blackhole)
   if q.api == "raw" then
     let run := queryRaw cfg id q.qname q.qtype q.qclass q.buf q.udp q.tcp queue q.dropAt
     let res : String := match run.result with
       | .ok n b => s!"ok:{n}:{toHex b}"
       | .err e => "err:" ++ showClientErr e
       | .dropped => "dropped"
-    (s!"res={res} " ++ fmtSeen run, run.queue, if sent run then id else 0)
+    (s!"res={res} " ++ fmtSeen run q.blackhole, run.queue, if sent run then id else 0)
   else
     let (r, run) := queryRRSet cfg id q.qname q.qclass q.udp q.tcp queue q.dropAt
     let res : String := match run.result, r with
@@ -774,7 +781,7 @@ def runQ (cfg : Cfg) (id : Nat) (queue : List Dgram) (q : QSpec) : String × Lis
       | _, .err e => "err:" ++ showClientErr e
       | _, .panic k => showPanic k
       | _, .ub => "ub"
-    (s!"res={res} " ++ fmtSeen run, run.queue, if sent run then id else 0)
+    (s!"res={res} " ++ fmtSeen run q.blackhole, run.queue, if sent run then id else 0)
 
 /-- `client …` -/
 def answerClient (toks : List String) : String :=
